@@ -108,6 +108,14 @@ def units(rng, tier):
             c1 = sorted(c1, key=sum)
             c2 = sorted(c2, key=sum)
             us.append(U("all_combinations", {"keep": True, "b1": mkbins(c1, True), "b2": mkbins(c2, True)}, f"allcomb/contents-k{k}-repeated-bins"))
+            if rng.random() < 0.6:
+                us.append(U("all_combinations", {"keep": False, "b1": mkbins(sorted(sum(l) for l in c1), False), "b2": mkbins(sorted(sum(l) for l in c2), False)},
+                            f"allcomb/sums-k{k}-repeated-sums"))
+    # sums manager, 5 bins, sums repeated over a tiny pool {0,1,2,3}: combinations with the same SET but different MULTISET of sums
+    ms5 = list(itertools.combinations_with_replacement(range(4), 5))
+    pairs5 = [(a, b) for a in ms5 for b in ms5]
+    for a, b in rng.sample(pairs5, 150 if tier == "quick" else 1500):
+        us.append(U("all_combinations", {"keep": False, "b1": mkbins(sorted(a), False), "b2": mkbins(sorted(b), False)}, "allcomb/sums-k5-small-pool"))
     # ---- CKK pruning bound
     for _ in range(150 if tier == "quick" else 1500):
         k = rng.randint(1, 5)
